@@ -101,6 +101,7 @@ def generate(r, tier):
         "p_fault": r.choice([0.0, 0.2, 0.4]),
         "fault_kinds": ["raise", "bool", "repr"],
         "p_mutate": 0.25,
+        "p_badcall": 0.08,
     }
     atickets = [gen.gen_ticket(r, "a.%d" % i, units, profile) for i in range(r.randint(2, 5))]
     noise = [gen.gen_ticket(r, "z.%d" % i, units, dict(profile, p_mutate=0.0, p_fault=0.0)) for i in range(r.randint(0, 3))]
@@ -162,7 +163,7 @@ def _gen_placement(r):
         u = gen.units_of(w)[0]
         cands = [(u, "%s/pre0" % u["owner"], "pre", w["funcs"][0]["pre"][0])]
     u, sid, kind, c = r.choice(cands)
-    c["style"] = r.choice(["async", "corolambda"])
+    c["style"] = r.choice(["async", "corolambda", "marked"])
     td = {"id": "pl", "fn": u["fn"]}
     if u["obj"] is not None:
         td["obj"] = u["obj"]
